@@ -19,16 +19,21 @@ JUDGE_MODULE = {"C01": "run_iso", "C02": "run_iso", "C03": "run_iso", "C12": "ru
 
 def run(pid, path):
     d = json.load(open(path))
-    if d.get("kind") != "failing-input" or pid not in set(JUDGE_MODULE) | {"C04", "C05", "C08", "C14", "C15", "C17"}:
+    if d.get("kind") != "failing-input" or pid not in set(JUDGE_MODULE) | {"C04", "C05", "C08", "C14", "C15", "C17"} \
+            or d.get("clauses") == ["model and implementation disagree"]:      # a correspondence disagreement: run the comparison again
         r = subprocess.run([os.path.join(vlib.VERIF, "check"), pid, "--tier", "quick"], cwd=vlib.VERIF)
         return r.returncode
     case = d.get("case")
     still = None
     if pid in JUDGE_MODULE:
+        module = JUDGE_MODULE[pid]
+        if isinstance(case, dict) and "ystyle" in case:
+            # cases of the bit-exact float streams (doubles as hexadecimal strings) go back to their own harness
+            module = "run_gpavaqfloat" if "lstyle" in case else "run_pavafloat"
         fd, tmp = tempfile.mkstemp(suffix=".json", dir=vlib.BUILD)
         os.close(fd)
         json.dump([case], open(tmp, "w"))
-        rc, data, log = vlib.run_harness(JUDGE_MODULE[pid], ["judge", tmp])
+        rc, data, log = vlib.run_harness(module, ["judge", tmp])
         os.unlink(tmp)
         if data is None:
             print(log[-2000:])
